@@ -39,6 +39,9 @@ TRUSTED = [
     "by harness/cmd/trC02 (go/ast -> Gen/SchedSyncGen.v, bridge_doat_sync, bridge_unl_sync); composition with the composite theorems is argued, not proved",
     "factory-made schedules (Properties/C02_factory.v, Model/SchedFactory.v): store-free model, a factory call runs the constructors again; "
     "that the real registry hands out schedules sharing no part is observed by the fact cases only",
+    "configuration trees (Properties/C02_profile.v, Model/SchedProfileTree.v): counts and offsets of const / line / once / step parts are the "
+    "exact-arithmetic formulas of Model/Sched.v, re-read from const.go / line.go / once.go / step.go by harness/cmd/translate sched "
+    "(Gen/Sched_bridge.v); the float64 evaluation by the real code is judged on the drained tables only",
     "nested composites under concurrency (Properties/C02_nested.v, Model/SchedNested.v): child operations under a read lock are interleaved "
     "sequences of the child's own sections (proved for every depth); write sections are atomic steps enabled only while no other thread "
     "holds the composite's read lock (sync.RWMutex), their child calls are the sequential s_next (= a solo run of the nested steps, proved); "
